@@ -404,9 +404,13 @@ func cmdCheck(args []string) {
 		// adapters that search a catalogue of inputs do not need the solver's model: they also run after a timeout
 		searchable := frByKey[g.fn] != nil && searchReplayable(frByKey[g.fn].Key) && strings.HasPrefix(g.kind, "post.")
 		if (worst.r.Status == "sat" || searchable) && !g.cover {
+			lastReplayTest = ""
 			verdict, out, test := eng.replay(frByKey[g.fn], worst, *outDir)
 			rep["replay_verdict"] = verdict
 			rep["replay_output"] = out
+			if lastReplayTest != "" && test != "" {
+				test = lastReplayTest // with the self-describing header (package directory, injected shims)
+			}
 			rep["replay_test"] = test
 			if verdict == "confirmed" {
 				suffix = ""
